@@ -19,6 +19,9 @@ func newMessageWriter(w *writer) *messageWriter {
 }
 
 func (w *messageWriter) message(def *model.Definition) error {
+	if err := checkMessageNames(def); err != nil {
+		return err
+	}
 	if err := w.def(def); err != nil {
 		return err
 	}
@@ -434,6 +437,54 @@ func (w *messageWriter) writer_field(def *model.Definition, field *model.Field) 
 		w.linef(`func (w %v) Copy%v(v %v) error {`, wname, fname, tname)
 		w.linef(`return w.w.Field(%d).Any(v.Unwrap().Raw())`, tag)
 		w.linef(`}`)
+	}
+	return nil
+}
+
+// checkMessageNames returns an error when two generated methods of a message or of its writer
+// get the same Go name, i.e. fields "x" and "has_x", "user_id" and "USER_ID", or a field "clone".
+func checkMessageNames(def *model.Definition) error {
+	reader := map[string]string{
+		"Clone":         "the generated method",
+		"CloneToArena":  "the generated method",
+		"CloneToBuffer": "the generated method",
+		"IsEmpty":       "the generated method",
+		"Unwrap":        "the generated method",
+	}
+	writer := map[string]string{
+		"Merge":  "the generated writer method",
+		"End":    "the generated writer method",
+		"Build":  "the generated writer method",
+		"Unwrap": "the generated writer method",
+	}
+
+	add := func(names map[string]string, field *model.Field, name string) error {
+		if other, ok := names[name]; ok {
+			return fmt.Errorf("%v.%v: generated Go name %q collides with %v",
+				def.Name, field.Name, name, other)
+		}
+		names[name] = fmt.Sprintf("the field %q", field.Name)
+		return nil
+	}
+
+	for _, field := range def.Message.Fields.List {
+		name := messageFieldName(field)
+		if err := add(reader, field, name); err != nil {
+			return err
+		}
+		if err := add(reader, field, "Has"+name); err != nil {
+			return err
+		}
+		if err := add(writer, field, name); err != nil {
+			return err
+		}
+
+		switch field.Type.Kind {
+		case model.KindAny, model.KindAnyMessage, model.KindMessage:
+			if err := add(writer, field, "Copy"+name); err != nil {
+				return err
+			}
+		}
 	}
 	return nil
 }
